@@ -54,6 +54,9 @@ func runC37(p *Prog, r *Report) {
 			"Server.idleConns":  "Server.idleConnsMu",
 			"Server.doneClosed": "Server.mu",
 			"Server.ln":         "Server.mu",
+			// the timeout response of a ctx: installed by a handler goroutine that may have outlived its timeout,
+			// read by the connection goroutine
+			"RequestCtx.timeoutResponse": "RequestCtx.timeoutLock",
 			// per-IP accounting
 			"perIPConnCounter.m": "perIPConnCounter.lock",
 			// FS
@@ -84,6 +87,7 @@ func runC37(p *Prog, r *Report) {
 		exempt: map[string]string{
 			"newCacheManager":   "constructor: not shared yet",
 			"(*fsFile).Release": "runs only once no reader and no list refers to the file any more",
+			"(*RequestCtx).reset": "runs when the ctx goes back to its pool: releaseCtx has just checked, under the lock, that no timeout response was installed, i.e. no handler goroutine was left behind with the ctx",
 		},
 	}
 	// Server fields that RequestCtx methods read (on handler goroutines, which may outlive their connection after
